@@ -7,6 +7,7 @@
   The model follows the tree *with* the two repairs
     fixes/C15-literal-dedup.patch      (`_dedup` keyed by `(type, value)`)
     fixes/C15-union-order-total.patch  (sort keys `(text, id, [kids])`, see Hint.lean)
+    fixes/C15-annotated-flatten.patch  (`_norm_annotated` flattens an inner `Annotated` normal form)
 -/
 import AdaptixModel.Types.Hint
 
@@ -167,6 +168,14 @@ def normType (W : World α) : Norm α → Norm α
   | .node .union args => mkUnion W (args.map fun a => .node .type [a])
   | n => .node .type [n]
 
+/-- `_norm_annotated` (repaired): an inner `Annotated` normal form (it can only come
+    from a union that collapsed to its single member; `typing` flattens the directly
+    nested spelling itself) is flattened, PEP 593. -/
+def normAnnotated (inner : Norm α) (metas : List (Norm α)) : Norm α :=
+  match inner with
+  | .node .annotated args => .node .annotated (args ++ metas)
+  | n => .node .annotated (n :: metas)
+
 /-! ### the normaliser -/
 
 mutual
@@ -187,7 +196,7 @@ def normalize (W : World α) : Hint α → Norm α
   | .union _ ms => normUnion W (normalizeList W ms)              -- _norm_union
   | .optional h => normUnion W [normalize W h, noneN]            -- Optional[T] is Union[T, NoneType]
   | .literal vs => normLiteral W vs                              -- _norm_literal
-  | .annotated h metas => .node .annotated (normalize W h :: metas.map .mdata)   -- _norm_annotated
+  | .annotated h metas => normAnnotated (normalize W h) (metas.map .mdata)        -- _norm_annotated
 /-- `_norm_iter` -/
 def normalizeList (W : World α) : List (Hint α) → List (Norm α)
   | [] => []
